@@ -8,37 +8,37 @@ ROOT = os.path.dirname(os.path.dirname(os.path.abspath(__file__)))
 CHECKS = {
     "C01": ("exploration",
             "property-based differential testing (proptest) against a truth-table least-fixpoint oracle",
-            "Generated-input search: thousands of generated ADFs (all syntactic profiles, labels, layouts, sort modes; small and large) are grounded on all five back-end paths and compared with the least fixpoint computed from the definition on truth tables. Finds any disagreement with a small witness; does not prove absence.",
+            "Generated-input search: tens of thousands of generated ADFs (all syntactic profiles, labels, layouts, sort modes; small, large up to 100 statements, re-used parser objects, logging switched on) are grounded on all five back-end paths and through the CLI (--grd, three library modes) and compared with the least fixpoint computed from the definition on truth tables. Finds any disagreement with a small witness; does not prove absence.",
             "Trusts oracle.rs/formula.rs (about 300 lines, cross-checked: brute force vs local evaluation on every small case). Labels avoid the characters biodivine reserves.",
             "DESIGN.md §6 C01"),
     "C02": ("exploration",
             "property-based differential testing (proptest) against exhaustive 3^n fixpoint enumeration",
-            "Generated ADFs (n<=6 quick, 7 thorough); complete() of all five back-end paths compared as multisets with the enumeration of all fixpoints of the consequence operator; grounded-first checked.",
+            "Generated ADFs (n<=6 quick, 7 thorough); complete() of all five back-end paths, and the CLI --com in three modes, compared as multisets with the enumeration of all fixpoints of the consequence operator; grounded-first checked; a part runs with logging switched on.",
             "Trusts oracle.rs. Bounded to n<=7 statements (brute force).",
             "DESIGN.md §6 C02"),
     "C03": ("exploration",
             "property-based differential testing (proptest) against the reduct definition of stable models",
-            "Generated ADFs; 16 call paths (plain, pre-filter, both rewritings x native/hybrid/biodivine) compared as multisets with the definition (two-valued models re-derived by the grounded interpretation of the reduct).",
+            "Generated ADFs; 20 call paths (plain, pre-filter, both rewritings x native/hybrid/from_biodivine/biodivine) and the CLI stable flags compared as multisets with the definition (two-valued models re-derived by the grounded interpretation of the reduct); a part runs with logging switched on.",
             "Trusts oracle.rs. Bounded to n<=7 statements.",
             "DESIGN.md §6 C03"),
     "C04": ("exploration",
             "property-based differential testing (proptest) against the reduct definition of stable models",
-            "Generated ADFs; both counting heuristics on native and hybrid(+/-pre) objects compared as multisets with the definitional stable models; committed regression replays of defect D1.",
+            "Generated ADFs (incl. statements sharing one condition); both counting heuristics on native, hybrid(+/-pre) and from_biodivine objects (same and fresh object) and the CLI --stmca/--stmcb compared as multisets with the definitional stable models; committed regression replays of defect D1.",
             "Trusts oracle.rs. Bounded to n<=7 statements.",
             "DESIGN.md §6 C04"),
     "C05": ("exploration",
             "property-based testing (proptest) with generated dynamic heuristics, step-bound termination oracle",
-            "Generated ADF x heuristic (all built-ins, Rand with generated seeds, four families of generated custom heuristics) x mode x back-end; result multiset compared with the definition, termination decided as a deterministic step bound through hook H1, sender drop checked with a non-blocking try_recv.",
+            "Generated ADF x heuristic (all built-ins, Rand with generated seeds, four families of generated custom heuristics) x mode (iterator, channel, bounded / rendezvous channel with a consumer thread) x back-end, plus the CLI --stmng/--twoval/--heu; result multiset compared with the definition, termination decided as a deterministic step bound through hook H1, sender drop checked causally.",
             "Termination is a step bound (2(2n+4)(3^n+1) loop iterations), not a proof. Trusts oracle.rs.",
             "DESIGN.md §6 C05"),
     "C06": ("exploration",
             "stateful property-based testing (proptest op sequences) against a truth-table shadow model; invariant after every step",
-            "Generated operation sequences incl. re-materialisations on one shared store; after every step the whole public node table is checked to be reduced, ordered and duplicate-free, and handle equality is compared with truth-table equality over all issued handles; bridge conversions of generated ADFs are checked the same way.",
+            "Generated operation sequences incl. eight kinds of re-materialisation on one shared store (variables spread across the 64/128 index boundaries, all 12 feature builds); after every step the whole public node table is checked to be reduced, ordered and duplicate-free, and handle equality is compared with truth-table equality over all issued handles; bridge conversions of generated ADFs are checked the same way.",
             "Trusts bddmodel.rs (bitset truth tables) and sut::walk. node() is only called order-respecting.",
             "DESIGN.md §6 C06"),
     "C07": ("exploration",
             "stateful property-based testing (proptest op sequences) against a truth-table shadow model",
-            "After every generated operation the result handle is walked under all 2^k assignments and compared with the function the operation names; old handles must keep their functions (checked whenever the node-table prefix changes, after re-materialisations and at the end).",
+            "After every generated operation (default build and all 12 feature builds, variables spread across the 64/128 index boundaries) the result handle is walked under all 2^k assignments and compared with the function the operation names; old handles must keep their functions (checked whenever the node-table prefix changes, after re-materialisations and at the end).",
             "Trusts bddmodel.rs and sut::walk; k<=6 (thorough 9) variables.",
             "DESIGN.md §6 C07"),
     "C13": ("exploration",
@@ -83,8 +83,8 @@ CHECKS = {
             "DESIGN.md §6 C11"),
     "C14": ("exploration",
             "round-trip property-based testing (proptest): export/import at generated points of an object's life",
-            "Generated ADFs are exported after generated call prefixes through serde JSON + fix_import and through the database-style node list; numbering, handles, names and all semantics answers must be preserved and agree with the definition.",
-            "The CLI clauses (--export never overwrites, --import) are exercised by the CLI part once the binary harness is present. n<=6.",
+            "Generated ADFs are exported after generated call prefixes through serde JSON + fix_import and through the database-style node list; numbering, handles, names and all semantics answers must be preserved and agree with the definition. The server's real storage layer is driven through the MongoDB stub (part web-storage) and the CLI --export/--import in all modes with decoy neighbour files and sorting options (part cli-export).",
+            "n<=6 for the library part (n up to 14 through the web service).",
             "DESIGN.md §6 C14"),
     "C15": ("exploration",
             "black-box property-based testing (proptest) of the CLI binary in all three library modes against the truth-table oracle",
